@@ -5,7 +5,7 @@
    (flag setting, prior state) in the order of the enumerations of Model.v.  Codes and digit
    strings travel as primitive 63-bit integers (literals of type [int] parse in constant
    time; [Z] and [string] literals of this size do not): the code as it is, the digits
-   packed base 4, 30 per integer, first digit in the lowest bits.  The functions below
+   packed base 4, 30 per integer (five integers per case), first digit in the lowest bits.  The functions below
    decode the code, compute the same digits from the model and compare. *)
 From Coq Require Import List ZArith Bool Arith Uint63.
 From NIC Require Import Shapes.Model.
@@ -29,9 +29,10 @@ Fixpoint quads (n : nat) (x : int) : list nat :=
   | S n' => small_nat (x land 3)%uint63 :: quads n' (x >> 2)%uint63
   end.
 
-(* the harness digit string: up to 90 digits in three integers *)
-Definition unpack (n : nat) (a b c : int) : list nat :=
-  quads (Nat.min n 30) a ++ quads (Nat.min (n - 30) 30) b ++ quads (Nat.min (n - 60) 30) c.
+(* the harness digit string: up to 150 digits in five integers *)
+Definition unpack (n : nat) (a b c d e : int) : list nat :=
+  quads (Nat.min n 30) a ++ quads (Nat.min (n - 30) 30) b ++ quads (Nat.min (n - 60) 30) c ++
+  quads (Nat.min (n - 90) 30) d ++ quads (Nat.min (n - 120) 30) e.
 
 Fixpoint nats_eqb (a b : list nat) : bool :=
   match a, b with
@@ -169,11 +170,11 @@ Definition ing_model_digits_with chal (s : ing_shape) : list nat :=
 Definition ing_model_digits := ing_model_digits_with validate_challenge.
 
 (* the harness reports 5 digits per group: the model's four plus the worker's sync function *)
-Definition ing_case (id code o1 o2 o3 : int) : list Z :=
+Definition ing_case (id code o1 o2 o3 o4 o5 : int) : list Z :=
   match ing_of_code code with
   | None => bad_row id
   | Some s =>
-      let obs := unpack 80 o1 o2 o3 in
+      let obs := unpack 80 o1 o2 o3 o4 o5 in
       row id (ing_model_digits s) (strip_last 5 0 obs) obs (shape_admissible s)
   end.
 
@@ -236,7 +237,11 @@ Definition parse_up (d : nat) : option up_sh := nth_error all_up_sh d.
 
 Definition zeros (n : nat) : list nat := repeat 0 n.
 
-(* VirtualServer: k payload(12); k: 0 bare, 1 route, 2 tls (t s r c l), 3 upstream (u) *)
+Definition pk_digit (k : pkind) : nat := match k with PkPrefix => 0 | PkExact => 1 | PkRegex => 2 end.
+Definition parse_pk (d : nat) : option pkind := nth_error all_pkind d.
+
+(* VirtualServer: k payload(12); k: 0 bare, 1 route, 2 tls (t s r c l), 3 upstream (u),
+   4 route reference only, with a path of kind (0 prefix, 1 exact, 2 regex) *)
 Definition vs_digits (s : vs_shape) : list nat :=
   match s with
   | VsBare => 0 :: zeros 12
@@ -244,6 +249,7 @@ Definition vs_digits (s : vs_shape) : list nat :=
   | VsTls Tl0 l => [2; 0; 0; 0; 0; obit l] ++ zeros 7
   | VsTls (Tl1 sec r c) l => [2; 1; obit sec; optbool_digit r; obit c; obit l] ++ zeros 7
   | VsUp u => [3; up_digit u] ++ zeros 11
+  | VsRef k => [4; pk_digit k] ++ zeros 11
   end.
 Definition vs_code (s : vs_shape) : int := code_of (vs_digits s).
 
@@ -260,6 +266,7 @@ Definition vs_of_code (c : int) : option vs_shape :=
                    | _, _, _, _, _ => None
                    end
                | 3, u :: _ => option_map VsUp (parse_up u)
+               | 4, k' :: _ => option_map VsRef (parse_pk k')
                | _, _ => None
                end in
       match r with
@@ -274,6 +281,8 @@ Definition vsr_digits (s : vsr_shape) : list nat :=
   | VrBare => 0 :: zeros 12
   | VrRoute r => 1 :: route_digits r
   | VrUp u => [3; up_digit u] ++ zeros 11
+  | VrTwo => 4 :: zeros 12
+  | VrOther => 5 :: zeros 12
   end.
 Definition vsr_code (s : vsr_shape) : int := code_of (vsr_digits s).
 
@@ -284,6 +293,8 @@ Definition vsr_of_code (c : int) : option vsr_shape :=
                | 0, _ => Some VrBare
                | 1, _ => option_map VrRoute (parse_route rest)
                | 3, u :: _ => option_map VrUp (parse_up u)
+               | 4, _ => Some VrTwo
+               | 5, _ => Some VrOther
                | _, _ => None
                end in
       match r with
@@ -399,30 +410,30 @@ Definition gc_model_digits (g : gc_shape) : list nat :=
 
 (* all CRD shapes are admitted by the schemas (checked by the harness); the harness reports one
    extra S-only digit (the worker's sync function) per group *)
-Definition vs_case (id code o1 o2 o3 : int) : list Z :=
+Definition vs_case (id code o1 o2 o3 o4 o5 : int) : list Z :=
   match vs_of_code code with
   | None => bad_row id
-  | Some s => let obs := unpack 60 o1 o2 o3 in row id (vs_model_digits s) (strip_last 5 0 obs) obs true
+  | Some s => let obs := unpack 140 o1 o2 o3 o4 o5 in row id (vs_model_digits s) (strip_last 5 0 obs) obs true
   end.
-Definition vsr_case (id code o1 o2 o3 : int) : list Z :=
+Definition vsr_case (id code o1 o2 o3 o4 o5 : int) : list Z :=
   match vsr_of_code code with
   | None => bad_row id
-  | Some s => let obs := unpack 20 o1 o2 o3 in row id (vsr_model_digits s) (strip_last 5 0 obs) obs true
+  | Some s => let obs := unpack 40 o1 o2 o3 o4 o5 in row id (vsr_model_digits s) (strip_last 5 0 obs) obs true
   end.
-Definition ts_case (id code o1 o2 o3 : int) : list Z :=
+Definition ts_case (id code o1 o2 o3 o4 o5 : int) : list Z :=
   match ts_of_code code with
   | None => bad_row id
-  | Some s => let obs := unpack 20 o1 o2 o3 in row id (ts_model_digits s) (strip_last 5 0 obs) obs true
+  | Some s => let obs := unpack 20 o1 o2 o3 o4 o5 in row id (ts_model_digits s) (strip_last 5 0 obs) obs true
   end.
-Definition pol_case (id code o1 o2 o3 : int) : list Z :=
+Definition pol_case (id code o1 o2 o3 o4 o5 : int) : list Z :=
   match pol_of_code code with
   | None => bad_row id
-  | Some s => let obs := unpack 12 o1 o2 o3 in row id (pol_model_digits s) (strip_last 3 0 obs) obs true
+  | Some s => let obs := unpack 12 o1 o2 o3 o4 o5 in row id (pol_model_digits s) (strip_last 3 0 obs) obs true
   end.
-Definition gc_case (id code o1 o2 o3 : int) : list Z :=
+Definition gc_case (id code o1 o2 o3 o4 o5 : int) : list Z :=
   match gc_of_code code with
   | None => bad_row id
-  | Some s => let obs := unpack 10 o1 o2 o3 in row id (gc_model_digits s) (strip_last 5 0 obs) obs true
+  | Some s => let obs := unpack 10 o1 o2 o3 o4 o5 in row id (gc_model_digits s) (strip_last 5 0 obs) obs true
   end.
 
 (* computed obligation: every shape of every enumeration decodes back from its code to a
